@@ -38,18 +38,33 @@ _SC = {
     "pec-pmc-periodic": dict(shape=(4, 2, 4), bounds={"min_x": "pec", "max_x": "pec", "min_y": "pmc", "max_y": "pmc", "min_z": "periodic", "max_z": "periodic"}, src=("dipole", "mdipole")),
     "bloch": dict(shape=(2, 2, 4), bounds="bloch", src=("dipole",), bloch=(1.5e6, 0.0, -0.8e6)),
     "pml-all": dict(shape=(4, 4, 4), bounds="pml", src=("dipole",), thickness=1),
+    # a non-default grid centre: every object is pinned by absolute real coordinates, so the three descriptions must agree
+    # on where the resolved edges lie, not only on the cell widths
+    "offcentre-realcoords": dict(shape=(4, 2, 4), bounds={"min_x": "pec", "max_x": "pec", "min_y": "pmc", "max_y": "pmc", "min_z": "periodic", "max_z": "periodic"},
+                                 src=("dipole", "mdipole"), centre=(2.0, -3.0, 3.0)),
 }
 
 
 def cases(tier, seed):
     T = 3 if tier == "quick" else 5
-    names = ["pml-z", "pec-pmc-periodic"] if tier == "quick" else list(_SC)
+    names = ["pml-z", "pec-pmc-periodic", "offcentre-realcoords"] if tier == "quick" else list(_SC)
     return [dict(name=n, T=T) for n in names]
 
 
 def _place(spec, T, kind):
     shape = spec["shape"]
-    if kind == "uniform":
+    centre = spec.get("centre")
+    if centre is not None:
+        cen = tuple(float(v) * SPACING for v in centre)
+        lower = [cen[a] - shape[a] * SPACING / 2 for a in range(3)]   # where the resolved edges of a centred policy start
+        if kind == "uniform":
+            grid = UniformGrid(spacing=SPACING, center=cen)
+        elif kind == "quasi":
+            grid = QuasiUniformGrid(dx=SPACING, dy=SPACING, dz=SPACING, center=cen)
+        else:
+            ed = [jnp.asarray(lower[a] + np.arange(shape[a] + 1, dtype=np.float64) * SPACING) for a in range(3)]
+            grid = RectilinearGrid(x_edges=ed[0], y_edges=ed[1], z_edges=ed[2])
+    elif kind == "uniform":
         grid = UniformGrid(spacing=SPACING)
     elif kind == "quasi":
         grid = QuasiUniformGrid(dx=SPACING, dy=SPACING, dz=SPACING)
@@ -69,7 +84,11 @@ def _place(spec, T, kind):
         # the uniform policies resolve to edges centred on 0, the explicit grid here starts at 0: use index placement
         # where it is allowed and the equivalent edge coordinate on the explicit grid
         for cc in cs:
-            if kind == "rect":
+            if centre is not None:
+                # absolute coordinates for all three descriptions (0.25 cell inside the target edge's snapping basin is not needed: exact edges)
+                from fdtdx.objects.object import RealCoordinateConstraint
+                cons.append(RealCoordinateConstraint(object=o.name, axes=cc.axes, sides=("-",) * len(cc.axes), coordinates=tuple(lower[a] + i * SPACING for a, i in zip(cc.axes, cc.idx))))
+            elif kind == "rect":
                 from fdtdx.objects.object import RealCoordinateConstraint
                 cons.append(RealCoordinateConstraint(object=o.name, axes=cc.axes, sides=("-",) * len(cc.axes), coordinates=tuple(i * SPACING for i in cc.idx)))
             else:
@@ -85,7 +104,19 @@ def run_case(c, case):
     T = case["T"]
     c.functions.update(META["functions"])
     c.bounds.update(T=T, shape=list(spec["shape"]))
-    scenes = {k: _place(spec, T, k) for k in ("uniform", "rect", "quasi")}
+    scenes, failed = {}, {}
+    for k in ("uniform", "rect", "quasi"):
+        try:
+            scenes[k] = _place(spec, T, k)
+        except Exception as ex:  # noqa: BLE001
+            failed[k] = f"{type(ex).__name__}: {str(ex)[:300]}"
+    if failed and scenes:
+        # the same scene places under one description and not under an equivalent one: the descriptions are not equivalent
+        c.fail_concrete("placement succeeds under some grid descriptions and fails under equivalent ones",
+                        dict(failed=failed, placed=sorted(scenes), scene=case["name"]), key=f"grid-equivalence:placement:{'+'.join(sorted(failed))}")
+        return
+    if failed:
+        raise Inconclusive(f"scene cannot be placed under any description: {failed}")
     for k, S in scenes.items():
         if S["config"].time_steps_total != T:
             raise Inconclusive(f"{k}: {S['config'].time_steps_total} steps instead of {T}")
